@@ -12,3 +12,4 @@ import Eliot.Properties.C14
 #print axioms VM.default_logger_untouched
 #print axioms VM.validateAllS_fst
 #print axioms VM.invalid_after_reset_reported
+#print axioms VM.bad_entry_reported
